@@ -22,7 +22,8 @@ TOOLS = os.path.dirname(os.path.abspath(__file__))
 COQ = os.path.normpath(os.path.join(TOOLS, "..", "coq"))
 REPO_SCRATCH = "/tmp/gencode5_repo"
 COQ_SCRATCH = "/tmp/gencode5_coq"
-OWN = ("GenCode5", "GenCode5Ok", "C12Code")
+OWN = ("GenCode5", "GenCode5Ok", "C12Code", "C13Code", "C14Code")
+PROPS = ("C12Code.v", "C13Code.v", "C14Code.v")
 SEEDED = "/verif/seeded/%s/patch.diff"
 
 CASES = [
@@ -147,6 +148,33 @@ CASES = [
 """, """            kwargs = {"start_point": self._start_point + other}
             kwargs["duration"] = self._duration
 """)]),
+    ("same", "S3r the whole refactor notes/refactors/S3.diff (import math / math.floor, import functools, ...)",
+     [("PATCH", "/verif/notes/refactors/S3.diff")]),
+    ("same", "S4r the whole refactor notes/refactors/S4.diff (raise self._bad_inputs_error(inputs) staticmethod, "
+             "_get_is_single_point, _get_last_point_from_start, _in_bounds_or_none)",
+     [("PATCH", "/verif/notes/refactors/S4.diff")]),
+    ("break", "N1 `floor` rebound at module level (def floor(x): return int(x)) - not math.floor any more", [
+        ("""from math import floor
+""", """
+
+def floor(x):
+    return int(x)
+""")]),
+    ("break", "N2 S4's helper _get_is_single_point with a wrong test (repetitions == 2)", [
+        ("PATCH", "/verif/notes/refactors/S4.diff"),
+        ("""        return self._repetitions == 1 or self._duration == Duration(years=0)""",
+         """        return self._repetitions == 2 or self._duration == Duration(years=0)""")]),
+    ("break", "N3 S4's _in_bounds_or_none returns the point when it is OUT of bounds", [
+        ("PATCH", "/verif/notes/refactors/S4.diff"),
+        ("""        if self._get_is_in_bounds(timepoint):
+            return timepoint
+        return None
+
+    def _get_is_in_bounds""", """        if not self._get_is_in_bounds(timepoint):
+            return timepoint
+        return None
+
+    def _get_is_in_bounds""")]),
     ("break", "S1 seeded C13-first-after-bounds", [("PATCH", SEEDED % "C13-first-after-bounds")]),
     ("break", "S2 seeded C13-valid-early-exit-reverse", [("PATCH", SEEDED % "C13-valid-early-exit-reverse")]),
     ("break", "S3 seeded C13-valid-second-of-day-shortcut", [("PATCH", SEEDED % "C13-valid-second-of-day-shortcut")]),
@@ -217,8 +245,9 @@ def fresh_tree():
         if os.path.basename(f)[:-3] not in OWN:
             os.symlink(f, os.path.join(COQ_SCRATCH, os.path.relpath(f, COQ)))
     shutil.copy(os.path.join(COQ, "Proofs", "GenCode5Ok.v"), os.path.join(COQ_SCRATCH, "Proofs"))
-    if os.path.exists(os.path.join(COQ, "Props", "C12Code.v")):
-        shutil.copy(os.path.join(COQ, "Props", "C12Code.v"), os.path.join(COQ_SCRATCH, "Props"))
+    for f in PROPS:
+        if os.path.exists(os.path.join(COQ, "Props", f)):
+            shutil.copy(os.path.join(COQ, "Props", f), os.path.join(COQ_SCRATCH, "Props"))
 
 
 def coqc(path):
@@ -265,8 +294,9 @@ def run(kind, name, edits):
         print("    " + m.group(1)[:220])
     verdict = "PROVES"
     files = ["gen/GenCode5.v", "Proofs/GenCode5Ok.v"]
-    if os.path.exists(os.path.join(COQ_SCRATCH, "Props", "C12Code.v")):
-        files.append("Props/C12Code.v")
+    for f in PROPS:
+        if os.path.exists(os.path.join(COQ_SCRATCH, "Props", f)):
+            files.append("Props/" + f)
     for f in files:
         rc, out, dt = coqc(f)
         if rc != 0:
